@@ -249,6 +249,9 @@ FILE_TEXTS = [
     ".include 'cyc_a_c15.s'\n", ".db 1\n.include 'cyc3_a_c15.s'\n.db 2\n", ".include 'cyc_b_c15.s'\n.include 'cyc_a_c15.s'\n",
     ".include_ips 'cut1_c15.ips', 0\n", ".include_ips 'cut2_c15.ips', 0\n", ".include_ips 'cut3_c15.ips', 0x200\n", ".include_ips 'cut4_c15.ips', 0\n",
     ".include_ips 'cut5_c15.ips', 0\n", ".db 1\n.include_ips 'whole_c15.ips', 0\n.include_ips 'cut1_c15.ips', 0\n",
+    # files named through the parent directory (a binary kept beside or above the project), through . and through dir/..
+    ".incbin '../up_c15.bin'\n", "*=0x008000\nlda.w up_c15_bin\n.incbin '../up_c15.bin'\nrts\n", ".incbin '../../up2_c15.bin'\n", ".incbin './exists_c15.s'\n", ".incbin 'sub_c15/../exists_c15.s'\n",
+    ".incbin '..'\n", ".incbin '../'\n", ".include '../up_c15.s'\n", ".table '../up_c15.tbl'\n.text 'AB'\n", ".include_ips '../up_c15.ips', 0\n", ".incbin '.../x'\n", ".incbin '..up_c15.bin'\n",
     # table-encoded text: strings that half-match longer entries, text several scopes below (or without) a table
     ".table 'tbl_c15.tbl'\n.text 'AB[emd] At [ x t'\n", ".table 'tbl_c15.tbl'\n.text '[nam[end]t[0x'\n", "{\n{\n.text 'x'\n}\n}\n",
     ".table 'tbl_c15.tbl'\n.scope s1 {\n.macro tm() {\n.text 'AB'\n}\ntm()\n.for k := 0, 2 {\n.text 'BA'\n}\n{\n{\n{\n.text 'A'\n}\n}\n}\n}\n",
@@ -336,6 +339,17 @@ def run_shard(shard: dict) -> Res:
                                    "*=0x408000\nloop:\nnop\nbra loop\n@=0x7e0000\n.dw 1\n", "*=0x3ffffe\n.ascii 'abcdefgh'\n"])
                 text = "\n".join(lines) + "\n" + body
                 run_text(res, text, "maps")
+                if i % 3 == 0:
+                    # a cartridge larger than the stock mappings describe, code placed so that patch records start or end around the offset
+                    # whose three bytes read EOF (with and without the copier header's 0x200): through the patch writer
+                    eo = 0x454F46 - rng.choice([0, 0, 0x200])
+                    at = eo + rng.choice([-3, -2, -1, 0, 1, -0xFFFF, -0xFFFF - 1, -0x10000]) - rng.choice([0, 0, 1, 2])
+                    ptext = (".map identifier=1 bank_range=0x00, 0xff addr_range=0x0000, 0xffff mask=0x10000\n" + f"*={at:#08x}\n" +
+                             rng.choice([".db 1\n", ".db 1, 2\n", ".db 1, 2, 3\n", ".dl 1, 2\n", ".incbin 'big_c15.bin'\n.db 1, 2\n"]))
+                    if not os.path.exists("big_c15.bin"):
+                        with open("big_c15.bin", "wb") as f:
+                            f.write(bytes(0xFFFF - 1))
+                    run_text(res, ptext, "patch-positions", "file_rel")
                 if i == 0:
                     res.sample({"family": "maps", "text": text})
         elif shard["kind"] == "expr":
@@ -354,6 +368,14 @@ def run_shard(shard: dict) -> Res:
             for name, content in SIDE_FILES.items():
                 with open(name, "wb" if isinstance(content, bytes) else "w") as f:
                     f.write(content)
+            os.makedirs("sub_c15", exist_ok=True)
+            for name, content in (("../up_c15.bin", b"\x01\x02\x03\x04"), ("../../up2_c15.bin", b"\x05"), ("../up_c15.s", ".db 9\n"), ("../up_c15.tbl", "41=A\n42=B\n"),
+                                  ("../up_c15.ips", SIDE_FILES["whole_c15.ips"]), ("..up_c15.bin", b"\x06")):
+                try:
+                    with open(name, "wb" if isinstance(content, bytes) else "w") as f:
+                        f.write(content)
+                except OSError:
+                    pass
             rng = random.Random(shard["seed"] ^ 0xF11E)
             texts = list(FILE_TEXTS)
             for _ in range(shard["n"]):
